@@ -306,6 +306,10 @@ func (e *Executor) runDeferred(t *ast.Task, call *Call, i int, deferredExitCode 
 	}
 
 	cmd.Cmd = templater.ReplaceWithExtra(cmd.Cmd, cache, extra)
+	// A deferred task call is resolved in the scope of the deferring task too,
+	// so that the callee sees the variables it was passed.
+	cmd.Task = templater.ReplaceWithExtra(cmd.Task, cache, extra)
+	cmd.Vars = templater.ReplaceVarsWithExtra(cmd.Vars, cache, extra)
 
 	if err := e.runCommand(ctx, t, call, i); err != nil {
 		e.Logger.VerboseErrf(logger.Yellow, "task: ignored error in deferred cmd: %s\n", err.Error())
